@@ -115,11 +115,51 @@ func genText(r *rand.Rand) string {
 	return s
 }
 
+// vecStyle shapes the stored vectors of a run: "grid" (default), "line" (all points
+// on one line: robust pruning then yields chain-like graphs in which deletes orphan
+// survivors and the rescue / re-link paths of the graph index run) or "clusters".
+// It is set by a property's Generate from the run's PRNG (withVecStyle).
+var vecStyle = "grid"
+
+func withVecStyle(style string, f func()) {
+	old := vecStyle
+	vecStyle = style
+	defer func() { vecStyle = old }()
+	f()
+}
+
+func pickVecStyle(r *rand.Rand) string {
+	return pick(r, []string{"grid", "grid", "line", "chain", "chain", "clusters", "ray"})
+}
+
 func genVector(r *rand.Rand, dim int, metric string) []float32 {
 	v := make([]float32, dim)
 	for i := range v {
 		// a coarse grid keeps exact arithmetic in float32 and makes ties possible but rare
 		v[i] = float32(r.IntN(41)-20) * 0.25
+	}
+	switch vecStyle {
+	case "ray":
+		// all vectors on one ray from the origin: under the dot metric the longest one is
+		// everybody's nearest neighbour (a hub whose degree reaches the bound first)
+		for i := range v {
+			v[i] = 0
+		}
+		v[0] = float32(1+r.IntN(400)) * 0.25
+	case "line", "chain":
+		t := float32(r.IntN(200)-100) * 0.5
+		for i := range v {
+			v[i] = 0
+		}
+		v[0] = t
+		if dim > 1 {
+			v[1] = 1 // off the origin so that cosine / dot do not degenerate
+		}
+	case "clusters":
+		c := r.IntN(3)
+		for i := range v {
+			v[i] = float32(c*40-40) + float32(r.IntN(9)-4)*0.25
+		}
 	}
 	if metric == models.DistanceHaversine {
 		v[0] = float32(r.IntN(171) - 85)  // latitude
@@ -233,6 +273,10 @@ func GenDoc(r *rand.Rand, schema models.IndexSchema, pIndexed float64) DocSpec {
 			setPath(d, name, genIndexedValue(r, schema[name]))
 		}
 	}
+	if r.IntN(4) == 0 {
+		// a value nested three levels deep (select / sort on long dotted paths)
+		d["deepdoc"] = VM(map[string]Val{"a": VM(map[string]Val{"b": VM(map[string]Val{"c": VI(int64(r.IntN(20))), "d": VS(genString(r))})})})
+	}
 	for i := 0; i < r.IntN(3); i++ {
 		name := pick(r, []string{"x", "y", "meta", "extra"})
 		if name == "meta" {
@@ -287,21 +331,80 @@ type HistoryOpts struct {
 	TopLevelOnlyUpdates bool
 }
 
+// chainVector places id on a line at distance 10 per id: inserted in ascending order
+// (style "chain") robust pruning leaves a chain start -> p0 <-> p1 <-> p2 ..., so that
+// deleting a contiguous run orphans the survivor behind it (rescue / re-link paths).
+func chainVector(id, dim int, metric string) []float32 {
+	v := make([]float32, dim)
+	v[0] = float32(id*10 + 10)
+	if vecStyle == "ray" {
+		v[0] = float32(200-id) * 0.5 // decreasing length in insertion order
+	}
+	if metric == models.DistanceHaversine {
+		v[0] = float32(id%80 + 1)
+		v[1] = 10
+	}
+	if metric == models.DistanceCosine {
+		// an arc instead of a line: unit vectors at increasing angle
+		a := float64(id+1) * 0.03
+		v[0] = float32(math.Cos(a))
+		if dim > 1 {
+			v[1] = float32(math.Sin(a))
+		}
+	}
+	return v
+}
+
+func applyChainVectors(d DocSpec, schema models.IndexSchema, id int) {
+	for _, name := range sortedKeys(schema) {
+		sv := schema[name]
+		if sv.Type == models.IndexTypeVectorFlat || sv.Type == models.IndexTypeVectorVamana {
+			dim, metric := vecParams(sv)
+			setPath(d, name, VV(chainVector(id, dim, metric)))
+		}
+	}
+}
+
 // GenHistory generates a history against a shadow model so that the interesting
 // cases (fresh / existing / deleted / never-stored ids) occur by construction.
 func GenHistory(r *rand.Rand, schema models.IndexSchema, maxPointSize int, o HistoryOpts) []Op {
 	shadow := NewRefShard(maxPointSize)
 	var ops []Op
 	everStored := map[int]bool{}
-	for len(ops) < o.NOps {
+	chainWarmup := 0
+	if vecStyle == "chain" {
+		chainWarmup = 4 + r.IntN(5) // a pure chain first: single ascending inserts
+	}
+	for len(ops) < o.NOps || len(ops) < chainWarmup+2 {
 		x := r.Float64()
 		live := shadow.IDs()
+		if len(ops) < chainWarmup {
+			x = 0 // insert
+		} else if len(ops) == chainWarmup && chainWarmup > 0 {
+			x = 0.8 // then a contiguous delete
+		}
 		switch {
 		case x < 0.45 || len(live) == 0:
 			n := r.IntN(o.MaxBatch + 1)
 			var batch []PointSpec
 			used := map[int]bool{}
-			for tries := 0; len(batch) < n && tries < 200; tries++ {
+			if vecStyle == "chain" {
+				// ascending ids, one per batch (two later on), vectors on the chain
+				n = 1
+				if len(ops) > chainWarmup && r.IntN(3) == 0 {
+					n = 2
+				}
+				for id := 0; id < o.IDPool && len(batch) < n; id++ {
+					if _, isLive := shadow.Docs[PID(id)]; isLive || everStored[id] {
+						continue
+					}
+					d := GenDoc(r, schema, 1)
+					applyChainVectors(d, schema, id)
+					used[id] = true
+					batch = append(batch, PointSpec{ID: id, Doc: d})
+				}
+			}
+			for tries := 0; vecStyle != "chain" && len(batch) < n && tries < 200; tries++ {
 				id := r.IntN(o.IDPool)
 				if _, isLive := shadow.Docs[PID(id)]; isLive || used[id] {
 					continue
@@ -348,6 +451,14 @@ func GenHistory(r *rand.Rand, schema models.IndexSchema, maxPointSize int, o His
 						d[k] = full[k]
 					}
 				}
+				if vecStyle == "chain" && r.IntN(4) != 0 {
+					// keep the chain: most updates leave the vector fields alone
+					for _, name := range sortedKeys(schema) {
+						if t := schema[name].Type; t == models.IndexTypeVectorFlat || t == models.IndexTypeVectorVamana {
+							delete(d, name)
+						}
+					}
+				}
 				// remove some fields of the stored document
 				if cur, ok := shadow.Docs[PID(id)]; ok {
 					for _, k := range sortedKeys(cur) {
@@ -366,6 +477,15 @@ func GenHistory(r *rand.Rand, schema models.IndexSchema, maxPointSize int, o His
 		case x < 0.92:
 			n := 1 + r.IntN(o.MaxBatch)
 			var ids []int
+			if vecStyle == "chain" && len(live) > 2 {
+				// a contiguous run of live ids (live is sorted by id)
+				k := min(2+r.IntN(3), len(live)-1)
+				start := r.IntN(len(live) - k + 1)
+				for _, u := range live[start : start+k] {
+					ids = append(ids, PIDIndex(u))
+				}
+				n = 0
+			}
 			for i := 0; i < n; i++ {
 				if r.IntN(5) == 0 || len(live) == 0 {
 					ids = append(ids, r.IntN(o.IDPool))
